@@ -585,6 +585,41 @@ func runC18(r *Rng, n int, tier string) {
 			"sqlc.json": fmt.Sprintf(`{"version":"1","packages":[{"path":"db","engine":"%s","schema":"schema.sql","queries":"query.sql"}]}`, eng)}
 		emit(c18GenCase(next("ddl"), files, []string{how, eng}, nil, nil))
 	}
+	// ---- gen: comment shapes around and inside a query (every line-based pass over the text must terminate)
+	commentZoo := []string{
+		"-- name: A :many\n/* one line */ SELECT 1;\n",
+		"-- name: A :many\n/* every row,\n   in no particular order */ SELECT 1;\n",
+		"-- name: A :many\n/* multi\nline */\nSELECT 1;\n",
+		"-- name: A :many\n/* multi\nline */ \nSELECT 1;\n",
+		"-- name: A :many\n/* multi\nline */ -- then a dash comment\nSELECT 1;\n",
+		"/* before\n the annotation */\n-- name: A :many\nSELECT 1;\n",
+		"/* before */ -- name: A :many\nSELECT 1;\n",
+		"-- name: A :many\nSELECT /* inline\n multi */ 1;\n",
+		"-- name: A :many\nSELECT 1 /* trailing\n multi */;\n",
+		"-- name: A :many\nSELECT 1; /* after the statement\n multi */\n",
+		"-- name: A :many\nSELECT 1 /* unterminated\n",
+		"-- name: A :many\n/* unterminated\nSELECT 1;\n",
+		"-- name: A :many\n/* nested /* inner */ outer */ SELECT 1;\n",
+		"-- name: A :many\n/*\n*/SELECT 1;\n",
+		"-- name: A :many\n/**/ SELECT 1;\n",
+		"-- name: A :many\n/* a */ /* b\n c */ SELECT 1;\n",
+		"-- name: A :many\n--\n--\n-- \nSELECT 1;\n",
+		"-- name: A :many\n-- doc /* not a block\nSELECT 1;\n",
+		"-- name: A :many\nSELECT '/* in a literal\n still */ x';\n",
+		"-- name: A :many\nSELECT 1;\n-- name: B :many\n/* second,\n multi */ SELECT 2;\n",
+		"-- name: A :many\r\n/* crlf\r\n block */ SELECT 1;\r\n",
+		"/* name: A :many */\n/* block\n doc */ SELECT 1;\n",
+	}
+	for _, eng := range []string{"postgresql", "mysql"} {
+		for _, q := range commentZoo {
+			files := map[string]string{"schema.sql": c18Schema[eng], "query.sql": q, "sqlc.json": fmt.Sprintf(`{"version":"1","packages":[{"path":"db","engine":"%s","schema":"schema.sql","queries":"query.sql"}]}`, eng)}
+			emit(c18GenCase(next("cmt"), files, []string{"comments:zoo", eng}, nil, nil))
+			if eng == "mysql" {
+				files2 := map[string]string{"schema.sql": c18Schema[eng], "query.sql": strings.Replace(q, "-- name:", "# name:", 1), "sqlc.json": files["sqlc.json"]}
+				emit(c18GenCase(next("cmt"), files2, []string{"comments:zoo-hash", eng}, nil, nil))
+			}
+		}
+	}
 	// ---- gen: byte strings and mutated projects
 	goodConf := `{"version":"1","packages":[{"path":"db","engine":"%s","schema":"schema.sql","queries":"query.sql"}]}`
 	for i := 0; i < n; i++ {
